@@ -3,5 +3,9 @@ CONSTANTS W = 3
           WS = 2
           Deep = {"int8", "string", "N1", "RPtrOE"}
           OptSet = {"default", "useall", "export", "exporttop", "useall_export", "tng", "tng_export", "tng_exporttop"}
+          Reps = 100
+          RepW = 0
+          Which = "all"
+          MutualFull = TRUE
 INVARIANTS Emit EmitPoints
 CHECK_DEADLOCK FALSE
